@@ -142,6 +142,7 @@ class Engine:
         self.inlined = set()
         self.perm_registry = []
         self.rules_used = set()
+        self.concrete = False  # differential self-test mode: concrete inputs, loops unrolled, callees inlined
         self.definitional = {}
         self.listings = {}
         self.global_axioms = []
@@ -329,6 +330,12 @@ class Engine:
         return self.obls[start:]
 
     def emit(self, kind, st, goal, tag=""):
+        if self.concrete:
+            if kind in ("divisor-positive", "minmax-nonempty", "list-repeat-nonneg", "unpack-arity", "islice-nonneg") or kind.startswith("assert["):
+                cc = BoolV(B(goal)).concrete()
+                if cc is False:
+                    raise _PyRaise({"divisor-positive": "ZeroDivisionError", "minmax-nonempty": "ValueError", "unpack-arity": "ValueError", "islice-nonneg": "ValueError"}.get(kind, "AssertionError"))
+            return
         name = f"{self.func.qualname}:{kind}{tag}"
         n = sum(1 for o in self.obls if o.name == name or o.name.startswith(name + "~"))
         if n:
@@ -485,6 +492,11 @@ class Engine:
             return [("return", st, val)]
         if isinstance(node, ast.Assert):
             cond = self.truth(self.ev(node.test, st), st)
+            if self.concrete:
+                cc = BoolV(cond).concrete()
+                if cc is None:
+                    raise Unsupported("concrete mode: symbolic assert")
+                return [("fall", st, None)] if cc else [("raise", st, "AssertionError")]
             self.emit("assert", st, cond, f"@{node.lineno - self.func.lines[0]}")
             st.assume(cond)
             return [("fall", st, None)]
@@ -584,6 +596,10 @@ class Engine:
             return self.set_accumulation_loop(node, it, st)
         seq = self.as_seq(it, st)
         n_c = z3.simplify(seq.n)
+        if self.concrete:
+            if not z3.is_int_value(n_c):
+                raise Unsupported("concrete mode: loop over a sequence of symbolic length")
+            return self.unroll_for(node, [seq.at(z3.IntVal(i)) for i in range(n_c.as_long())], st)
         if z3.is_int_value(n_c) and 0 <= n_c.as_long() <= 8 and self.contract.invariants.get(ordinal) is None:
             return self.unroll_for(node, [seq.at(z3.IntVal(i)) for i in range(n_c.as_long())], st)
         carried0 = assigned_names(node.body) - _target_names(node.target)
@@ -708,7 +724,33 @@ class Engine:
                 done.append(("fall", s, None))
         return done
 
+    def exec_while_concrete(self, node, st):
+        live = [st]
+        done = []
+        for _ in range(400):
+            nxt = []
+            for s in live:
+                g = BoolV(self.truth(self.ev(node.test, s), s)).concrete()
+                if g is None:
+                    raise Unsupported("concrete mode: symbolic loop guard")
+                if not g:
+                    done += self.exec_block(node.orelse, s) if node.orelse else [("fall", s, None)]
+                    continue
+                for kind, s2, val in self.exec_block(node.body, s):
+                    if kind in ("fall", "continue"):
+                        nxt.append(s2)
+                    elif kind == "break":
+                        done.append(("fall", s2, None))
+                    else:
+                        done.append((kind, s2, val))
+            live = nxt
+            if not live:
+                return done
+        raise Unsupported("concrete mode: loop did not finish within 400 iterations")
+
     def exec_while(self, node, st):
+        if self.concrete:
+            return self.exec_while_concrete(node, st)
         ordinal = node._ordinal
         carried = sorted(assigned_names(node.body))
         inv = self.contract.invariants.get(ordinal)
@@ -829,6 +871,13 @@ class Engine:
                 # symbolic index: Python would wrap negatives; we demand 0 <= i < n
         else:
             raise Unsupported(f"index {idx!r}")
+        if self.concrete:
+            okb = BoolV(z3.And(i >= 0, i < n)).concrete()
+            if okb is None:
+                raise Unsupported("concrete mode: symbolic index")
+            if not okb:
+                raise _PyRaise("IndexError")
+            return z3.simplify(i)
         self.emit("index-bounds", st, z3.And(i >= 0, i < n), f"@{what}")
         return i
 
@@ -964,6 +1013,10 @@ class Engine:
                 v = self.ev(e, st)
                 t = self.truth(v, st)
                 vals.append((v, t))
+                if self.concrete:
+                    tc = BoolV(t).concrete()
+                    if tc is (False if isinstance(node.op, ast.And) else True):
+                        break  # Python's short circuit: the remaining operands are not evaluated
                 st.pc.append(t if isinstance(node.op, ast.And) else z3.Not(t))
         finally:
             del st.pc[saved:]
@@ -981,6 +1034,8 @@ class Engine:
                 right = self.ev(rn, st)
                 t = self.compare(op, left, right, st)
                 parts.append(t)
+                if self.concrete and BoolV(t).concrete() is False:
+                    break  # chained comparison short-circuits
                 st.pc.append(t)
                 left = right
         finally:
@@ -1035,6 +1090,10 @@ class Engine:
 
     def ev_IfExp(self, node, st):
         cond = self.truth(self.ev(node.test, st), st)
+        if self.concrete:
+            cc0 = BoolV(cond).concrete()
+            if cc0 is not None:
+                return self.ev(node.body if cc0 else node.orelse, st)
         saved = len(st.pc)
         st.pc.append(cond)
         try:
@@ -1165,11 +1224,10 @@ class Engine:
 
         if not g.ifs:
             # bounds obligations inside the element expression: check once for an arbitrary index
-            probe = fresh("ci")
-            s_probe = elem_state(probe)
-            n_before = len(self.obls)
-            self.ev(elt, s_probe)
-            _ = n_before
+            if not self.concrete:
+                probe = fresh("ci")
+                s_probe = elem_state(probe)
+                self.ev(elt, s_probe)
 
             def at(i):
                 s2 = elem_state(i)
@@ -1209,18 +1267,34 @@ class Engine:
             return v
 
         # obligations of predicate / element for an arbitrary index
-        probe = fresh("ci")
-        s_probe = elem_state(probe)
-        for c_ in g.ifs:
-            s_probe.pc.append(self.truth(self.ev(c_, s_probe), s_probe))
-        self.ev(elt, s_probe)
+        if not self.concrete:
+            probe = fresh("ci")
+            s_probe = elem_state(probe)
+            for c_ in g.ifs:
+                s_probe.pc.append(self.truth(self.ev(c_, s_probe), s_probe))
+            self.ev(elt, s_probe)
         return self.make_filter(seq.n, pred, val, st, kind)
+
+    def make_filter_concrete(self, n, pred, val, kind):
+        n_c = z3.simplify(n)
+        if not z3.is_int_value(n_c):
+            raise Unsupported("concrete mode: filter over a symbolic range")
+        items = []
+        for i in range(n_c.as_long()):
+            keep = BoolV(pred(z3.IntVal(i))).concrete()
+            if keep is None:
+                raise Unsupported("concrete mode: symbolic filter predicate")
+            if keep:
+                items.append(val(z3.IntVal(i)))
+        return self.as_seq(TupV(items), None).with_kind(kind) if items else SeqV(0, lambda i: IntV(0), kind)
 
     def make_filter(self, n, pred, val, st, kind):
         """[val(i) for i in range(n) if pred(i)] through cnt/sel (prefix count and
         selector).  The axioms below are the complete characterisation of a filter;
         their consistency (existence of cnt, sel) is the TRUSTED 'filter = subsequence'
         fact, generic lemmas about them are proved once in pyvc/lemmas.py."""
+        if self.concrete:
+            return self.make_filter_concrete(n, pred, val, kind)
         cnt = fresh_fun("cnt", z3.IntSort(), z3.IntSort())
         sel = fresh_fun("sel", z3.IntSort(), z3.IntSort())
         i, j = fresh("fi"), fresh("fj")
@@ -1297,14 +1371,21 @@ class Engine:
                 saved_ord[n_] = getattr(n_, "_ordinal", None)
                 n_._ordinal = k_ord
                 k_ord += 1
+        is_gen = any(isinstance(n_, (ast.Yield, ast.YieldFrom)) for n_ in ast.walk(ast.Module(body=F.body, type_ignores=[])))
+        if is_gen:
+            env["__out__"] = ListV(0, lambda i: IntV(0))
         s0 = State(env, list(st.pc))
         outs = self.exec_block(F.body, s0)
         vals = []
         for kind, s, val in outs:
-            if kind == "return":
+            if is_gen and kind in ("return", "fall"):
+                vals.append((s, s.env["__out__"].snapshot("gen")))
+            elif kind == "return":
                 vals.append((s, val))
             elif kind == "fall":
                 vals.append((s, NONE))
+            elif kind == "raise" and self.concrete:
+                raise _PyRaise(val)
             else:
                 raise Unsupported(f"inline call of {F.qualname}: path ends in {kind}")
         self.inlined.add(F.qualname)
@@ -1320,6 +1401,34 @@ class Engine:
         return out
 
     def call_by_contract(self, name, args, ctx=None, st=None, kwargs=None):
+        if self.concrete and st is not None:
+            F = self.repo.get(name.split("@")[0])
+            if F is None:
+                raise Unsupported(f"concrete mode: {name} not found")
+            full = list(args)
+            # fill defaults from the function signature
+            names = [p for p in F.params]
+            if F.kind == "classmethod":
+                names = names[1:]
+            defaults = F.defaults
+            kwargs = kwargs or {}
+            while len(full) < len(names):
+                nm = names[len(full)]
+                k_from_end = len(names) - len(full)
+                if nm in kwargs:
+                    full.append(kwargs[nm])
+                elif k_from_end <= len(defaults):
+                    full.append(self.ev(defaults[len(defaults) - k_from_end], State()))
+                else:
+                    raise Unsupported(f"concrete mode: missing argument {nm} of {name}")
+            if F.kind == "classmethod":
+                full = [ObjV("type", {"name": F.cls})] + full
+            saved = self.func
+            self.func = F
+            try:
+                return self.inline_call(F, full, st)
+            finally:
+                self.func = saved
         K = self.contracts.get(name)
         if K is None:
             K = self.contracts.get(f"{name}@{len(args)}")
